@@ -125,6 +125,29 @@ for line in sys.stdin:
 os._exit(0)
 '''
 
+# the FIRST compile request of a fresh process, released by a barrier immediately before the call
+FIRST = r'''
+import os, sys, json, time
+out = os.fdopen(os.dup(1), 'w')
+dn = os.open(os.devnull, os.O_WRONLY); os.dup2(dn, 1); os.dup2(dn, 2)
+sync = sys.argv[1]; me = sys.argv[2]; tag = sys.argv[3]
+res = {}
+try:
+    from pyiga import compile
+    src = "def answer():\n    return %s\n" % tag
+    open(os.path.join(sync, 'ready-' + me), 'w').close()
+    go = os.path.join(sync, 'go')
+    while not os.path.exists(go): time.sleep(0.001)
+    t0 = float(open(go).read())
+    while time.time() < t0: pass
+    m = compile.compile_cython_module(src)
+    res.update(outcome='ok' if m.answer() == int(tag) else 'wrong', mod=m.__name__)
+except BaseException as e:
+    res.update(outcome='exc', kind=type(e).__name__, msg=str(e)[:160])
+out.write(json.dumps(res) + '\n'); out.flush()
+os._exit(0)
+'''
+
 # loads one extension module file in a sandboxed child: rc 0 loadable, 3 ImportError, <0 signal
 PROBE = r'''
 import os, sys, importlib.util
@@ -699,10 +722,43 @@ def _run(ctx, lab):
         hists = [rp['history']] if rp.get('stream') == 'session' else []
     sfuts = [pool.submit(session_case, h) for h in hists]
 
+    # ---- stream F: concurrent FIRST requests on a cache directory that does not exist yet ---------------------
+    def first_race(n, tag):
+        """n fresh processes import pyiga, report ready, and are released together (spin on a common wall-clock instant)
+        immediately before compile_cython_module(src) on an XDG_CACHE_HOME in which pyiga/modules does not exist"""
+        d = lab.dir('first')
+        sync = os.path.join(d, 'sync')
+        os.makedirs(sync)
+        cache = os.path.join(d, 'cache')
+        ps = [subprocess.Popen([PY, '-B', '-c', FIRST, sync, str(i), str(tag)], env=child_env(cache), stdout=subprocess.PIPE,
+                               stderr=subprocess.DEVNULL, start_new_session=True) for i in range(n)]
+        t = time.time()
+        while len([f for f in os.listdir(sync) if f.startswith('ready-')]) < n and time.time() - t < 600 and all(p.poll() is None for p in ps):
+            time.sleep(0.01)
+        with open(os.path.join(sync, 'go.tmp'), 'w') as f:
+            f.write(repr(time.time() + 0.3))
+        os.replace(os.path.join(sync, 'go.tmp'), os.path.join(sync, 'go'))
+        outs = []
+        for p in ps:
+            try:
+                o, _ = p.communicate(timeout=600)
+                outs.append(parse_worker(p.returncode, o))
+            except subprocess.TimeoutExpired:
+                kill_group(p)
+                outs.append({'outcome': 'timeout'})
+        shutil.rmtree(d, ignore_errors=True)
+        return ('first', n, tag, outs)
+
+    frounds = [(6, 101), (8, 102)] if quick else [(int(n), 100 + i) for i, n in enumerate(rng.integers(4, 9, size=6))]
+    if rp is not None:
+        frounds = [(rp['processes'], 101), (rp['processes'], 102)] if rp.get('stream') == 'first-request-race' else []
+
     # quick: all rounds at once next to the other streams; thorough: one round at a time (cleaner timing)
     if rp is not None:
         rounds = [(rp['forms'], rp['start_offsets_s'])] * 3 if rp.get('stream') == 'race' else []
     rpool = ThreadPoolExecutor(len(rounds) + 1 if quick else 1)
+    rpool2 = ThreadPoolExecutor(2 if quick else 1)
+    ffuts = [rpool2.submit(first_race, n, tag) for n, tag in frounds]
     rfuts = [rpool.submit(race, f, o) for f, o in rounds] + [rpool.submit(held_link_race) for _ in range((1 if quick else 3) if want('held-link-race') else 0)]
 
     results = [f.result() for f in futs]
@@ -727,7 +783,9 @@ def _run(ctx, lab):
             # a non-loadable file at the imported path is reachable by interruption only if the build writes that path in place
             # ... so with a private link target only corruption that the loader *rejects* (ImportError: the code is meant to rebuild) or
             # deletion stays in scope; a published file damaged afterwards so that dlopen itself dies cannot be handled in-process
-            external_only = (akey == ('S', 'so') and not inplace and cls != 'delete' and len(sc1.get(akey, ())) > 2 and sc1[akey][2] == 'signal')
+            # The property text names the classes empty / header-only / half / all-but-last-byte / deletion / garbage for every file the
+            # build writes: those are always in scope.  `page` and `quarter` are extra classes of this harness, recorded only.
+            external_only = (akey == ('S', 'so') and not inplace and cls in ('page', 'quarter') and len(sc1.get(akey, ())) > 2 and sc1[akey][2] == 'signal')
             for which, rr in (('first', r1), ('second', r2)):
                 if rr['outcome'] != 'ok':
                     what = '%s: %s fresh process after the fault ended with %s' % (name, which, json.dumps(rr))
@@ -864,6 +922,26 @@ def _run(ctx, lab):
             if not ok:
                 ctx.violation('model-diff:held-link-race', 'model `%s`, real `%s`' % (got, real), replay, False)
 
+    # ---- evaluate F ---------------------------------------------------------------------------------------
+    for (_, n, tag, outs) in [f.result() for f in ffuts]:
+        ctx.case(('first-request-race', n, tag))
+        ctx.count('first-request-rounds')
+        ctx.count('first-request-processes', n)
+        ctx.sample('first requests x%d on a non-existent cache dir -> %s' % (n, [o['outcome'] + (':' + o.get('kind', '') if o['outcome'] == 'exc' else '') for o in outs]), limit=24)
+        replay = {'stream': 'first-request-race', 'processes': n, 'outcomes': outs,
+                  'how': 'n fresh processes, XDG_CACHE_HOME without pyiga/modules, released together right before compile_cython_module("def answer(): return <tag>")'}
+        nbad = [o for o in outs if o['outcome'] != 'ok']
+        if nbad:
+            ctx.violation('race:concurrent-first-request', '%d of %d processes issuing their first compile request at the same moment on a cache directory that did not exist yet '
+                          'did not obtain a module: %s' % (len(nbad), n, json.dumps(nbad[:3])), replay, True)
+        ev = ['s %d 9' % i for i in range(n)] + ['r %d 0' % i for _ in range(nsteps) for i in range(n)]
+        ans = ctx.model('drv_c20', ['x %s %d %s %d 0' % (proto, len(ev), ' '.join(ev), n)])[0].split(' built ')[0]
+        real = 'pc ' + ' '.join('loaded:9' if o['outcome'] == 'ok' else abstract_outcome(o) for o in outs)
+        ctx.count('model-ties')
+        if proto == 'r' and ans != real:
+            ctx.violation('model-diff:first-request-race', 'model `%s`, real `%s`' % (ans, real), dict(replay, model_answer=ans), False)
+    rpool2.shutdown()
+
     # ---- evaluate E ---------------------------------------------------------------------------------------
     sreqs, sexp = [], []
     for (_, done, mods, pub) in sres:
@@ -923,7 +1001,8 @@ def _run(ctx, lab):
                 'invoked for compile/link, after a truncated link, after the link (+ hook stages when present), then a fresh process, also with a second '
                 'fault on a file the killed build left; SIGKILL of the process group at seeded random times; 2..8(16) processes racing on the same '
                 'and on two forms with seeded start offsets; a schedule-controlled race (linker descheduled mid-write); long-lived processes making several '
-                'requests (forms (1+k/8)*u*v*dx) with external cache wipes (scripts/clear-cache.py), entry deletions and fresh-process requests in between')
+                'requests (forms (1+k/8)*u*v*dx) with external cache wipes (scripts/clear-cache.py), entry deletions and fresh-process requests in between; 4..8 fresh processes released together by a barrier right before their FIRST '
+                'compile_cython_module call on a cache directory that does not exist yet')
     ctx.notes.append('cannot exhibit: kernel rename/dlopen semantics (rename atomicity is an assumption of safe_repaired; both loader reactions to a '
                      'partial file are modelled and whichever the sandboxed probe observes is compared), real scheduling (sampled here, exhaustively interleaved in the model)')
     if inplace:
